@@ -39,25 +39,25 @@ CHECKS = {
          "Every index length 0..12 in both parities, every kind byte, biased bodies, mutated valid indices, invalid UTF-8 and long strings; each result compared with the decoder specification; the same monitor under 8 concurrent callers.",
          "Decoder specification in harness/oracle (RefTokenize).", "4/C12"),
  "C13": ("exploration", "reference-model monitor for refusal (exact rational success probability vs threshold), scripted all-attempts-fail and recover-after-k-failures streams, malformed recipe shapes",
-         "Thousands of recipes around the refusal threshold under default and modified knobs: refusal and acceptance directions on scripted streams, SuccessProbability() vs the exact fraction, attempt budget, no panic on any malformed recipe shape of either kind.",
+         "Thousands of recipes around the refusal threshold under default and modified knobs: refusal and acceptance directions on scripted streams, SuccessProbability() vs the exact fraction, attempt budget, no panic on any malformed recipe shape of either kind nor on an undefined capitalisation scheme.",
          "1% band around the threshold and recipes with an emptied required set not judged for must-not-refuse.", "4/C13"),
  "C09": ("fault_enumeration", "fault enumeration on the scripted entropy tape: every read position x every short delivery (0-3 bytes) x {once, from then on}; re-chunked reads; determinism replays (goroutine, fresh processes); strace syscall monitor with injected getrandom/urandom failure",
-         "For every sampled generation of both recipe kinds a failure is injected at every individual read of the random source with 0..3 bytes delivered (once, and sticky); no password may be returned and reading must stop. Chunked delivery, tape-determinism across goroutines and fresh processes, support over complete cells, and the opgen binary under strace (getrandom counted, k-th kernel entropy read failed) complete the picture.",
+         "For every sampled generation of both recipe kinds a failure is injected at every individual read of the random source with 0..3 bytes delivered (once, and sticky); no password may be returned and reading must stop. Chunked delivery, tape-determinism across goroutines and fresh processes, support over complete cells, and the opgen binary under strace (kernel-delivered bytes against the entropy floor of the output, all-zero entropy must give one choice repeated, k-th kernel entropy read failed) complete the picture.",
          "Go 1.23 semantics of crypto/rand.Read (io.ReadFull over the replaceable rand.Reader), pinned by GOTOOLCHAIN=local. strace when= is per thread: only runs whose log shows the injected failure and blocked fallback are judged.", "4/C09"),
  "C14": ("exploration", "Go race detector (-race build of the harness) over stress scenarios with injected scheduling points at every entropy read; concurrent results validated by the recipe oracles; report blocks counted and de-duplicated by spg entry-point pair",
          "8 sharing scenarios x G in {4,16,64} goroutines x 5/120 repetitions x 6 rounds on freshly built shared values (no warm-up: first uses happen under concurrency; RequireSets with spare capacity and shared backing arrays) under the race detector; zero reports with spg frames, concurrent callers agree among themselves and with single-threaded references computed afterwards, every concurrent password valid (structure, capitalisation positions, separators).",
          "Covers the interleavings the runs produced (happens-before race detection), not all schedules. GORACE halt_on_error=0 with log files counted by the parent.", "4/C14"),
- "C15": ("exploration", "history monitor: deep before/after snapshots of the whole pool around every call (frame), and replay of every call on a fresh recipe in a fresh process with the same scripted stream (history independence)",
-         "Thousands of generated histories of calls, caller-side field updates and knob updates over pools of recipes (incl. field-regrouped siblings, class overlaps, failing separator recipes) sharing lists, separator functions and RequireSets backing arrays; returned passwords re-inspected at the end.",
+ "C15": ("exploration", "history monitor: deep before/after snapshots of the whole pool around every call (frame), and replay of every call on a fresh recipe in a fresh process (started from a different environment) with the same scripted stream (history independence); environment variables the library reads are discovered with the Go runtime's testlog monitor",
+         "Thousands of generated histories of calls, caller-side field updates, knob updates and process-environment changes over pools of recipes (incl. field-regrouped siblings, class overlaps, failing separator recipes) sharing lists, separator functions and RequireSets backing arrays; returned passwords re-inspected at the end.",
          "The implementation on the trivial history is the reference; wordlist results compared as choice records.", "4/C15"),
  "C16": ("exploration", "complete enumeration of the finite configuration space with reference tables; execution-tree explorer for the exact distribution of each separator preset; element-wise comparison of shipped lists with testdata files",
-         "Exhaustive: every exported flag/union, all 32 flag subsets, constructor defaults (and independence of two constructor calls), retry-budget defaults, all 7 presets (every output and its exact probability, also after a knob excursion), all 28454 list entries (after the lists were used through NewWordList).",
+         "Exhaustive: every exported flag/union, all 32 flag subsets, constructor defaults (and independence of two constructor calls), retry-budget defaults as values and as behaviour (refusal border for set-, flag- and mixed-form requirements; exactly 200 attempts; second attempt at any length), all 7 presets (every output and its exact probability, also after a knob excursion), all 28454 list entries (after the lists were used through NewWordList).",
          "Preset distributions modulo C01. Documented class strings written out in harness/oracle.", "4/C16"),
  "C17": ("exploration", "process-level monitor of the built opgen binary: exit status / stdout / stderr vs an independent flag-word mapping; exact DP membership of the printed line in the recipe's language; library entropy comparison",
          "Thousands of invocations over the documented flag words (both subcommands, all separators, schemes, lists incl. hostile --file lists), the invalid forms and refused recipes.",
          "Flag-word tables from the usage text. Undocumented words, unreadable files and --entropy on refused recipes are outside the statement.", "4/C17"),
  "C18": ("exploration", "output-capture monitor: fd 1/2 (and the logger) redirected around batches of library calls and searched for every secret of the batch (canary alphabets/words: any fragment; realistic: whole passwords and rejected candidates) raw, quoted, hex and base64",
-         "Thousands of generations incl. refused, failing, fault-aborted and repeated-stream ones, lowered retry knobs, lists with the empty and with over-long words, the token-index API called on every password, and the diagnostic-printing paths; rejected candidates reconstructed from the tape's draw path; canary alphabets are secret as a whole and canary words down to 8-character windows.",
+         "Thousands of generations incl. refused, failing, fault-aborted and repeated-stream ones, lowered retry knobs, a hostile process environment (locale and debugging variables plus every variable the library is observed to read), lists with the empty and with over-long words, the token-index API called on every password, and the diagnostic-printing paths; rejected candidates reconstructed from the tape's draw path; canary alphabets are secret as a whole and canary words down to 8-character windows.",
          "The library can only write through fd 1, fd 2 or the standard logger; capture shown non-empty in the evidence.", "4/C18"),
 }
 PENDING = {}
